@@ -5,6 +5,12 @@ from fractions import Fraction as Fr
 import framework as fw
 
 
+def _order_name(bt):
+    from rdkit.Chem import rdchem
+
+    return str(rdchem.BondType.values[int(bt)]).split(".")[-1]
+
+
 def num_of_text(t):
     if t == "inf":
         return math.inf
@@ -67,7 +73,7 @@ def impl_descr_obj(bd):
         "id": None if bd.descriptor_id == "" else int(bd.descriptor_id),
         "weight": float(bd.weight),
         "trans": None if bd.transitions is None else [float(x) for x in bd.transitions],
-        "order": str(bd.bond_type).split(".")[-1],
+        "order": _order_name(bd.bond_type),
         "pre": bd.preceding_characters,
         "atom": getattr(bd, "atom_bonding_to", None),
         "num": bd.descriptor_num,
